@@ -293,6 +293,19 @@ theorem chord_snd_max (p q r : ℝ × ℝ) (h : OnChord p q r) : r.2 ≤ max p.2
   have a2 : q.2 ≤ max p.2 q.2 := le_max_right _ _
   nlinarith [mul_le_mul_of_nonneg_left a1 (sub_nonneg.mpr s1), mul_le_mul_of_nonneg_left a2 s0]
 
+theorem chord_snd_min (p q r : ℝ × ℝ) (h : OnChord p q r) : min p.2 q.2 ≤ r.2 := by
+  obtain ⟨h1, h2, h3⟩ := h
+  have d : 0 < q.1 - p.1 := by linarith
+  set s := (r.1 - p.1) / (q.1 - p.1) with hs
+  have s0 : 0 ≤ s := div_nonneg (by linarith) d.le
+  have s1 : s ≤ 1 := by rw [hs, div_le_one d]; linarith
+  have e : r.2 = (1 - s) * p.2 + s * q.2 := by
+    rw [h3, hs]; simp only [lerp]; field_simp; ring
+  rw [e]
+  have a1 : min p.2 q.2 ≤ p.2 := min_le_left _ _
+  have a2 : min p.2 q.2 ≤ q.2 := min_le_right _ _
+  nlinarith [mul_le_mul_of_nonneg_left a1 (sub_nonneg.mpr s1), mul_le_mul_of_nonneg_left a2 s0]
+
 /-! ### mirror symmetry -/
 
 /-- the polyline reflected in the ordinate axis (again ascending) -/
